@@ -412,6 +412,20 @@ class FunctionTrace:
         sys.setprofile(None)
 
 
+def _dump_partial(res):
+    """what has been established so far (violations found on seeded concrete inputs, paths decided): read by the driver if this
+    worker is killed at its wall-time limit, so that a found violation is not lost"""
+    out = os.environ.get("VERIF_PARTIAL_OUT")
+    if not out:
+        return
+    try:
+        with open(out + ".tmp", "w") as f:
+            json.dump(res, f, default=str)
+        os.replace(out + ".tmp", out)
+    except Exception:
+        pass
+
+
 def run_config(prop, cfg_id, scenario, params, opts):
     """full treatment of one configuration; returns a JSON-able dict"""
     t0 = time.time()
@@ -500,6 +514,7 @@ def run_config(prop, cfg_id, scenario, params, opts):
     if opts.get("concrete_only") or real_only:
         res["wall_s"] = round(time.time() - t0, 2)
         return res
+    _dump_partial(res)
 
     # (3) symbolic exploration
     ex = Explorer(timeout_ms=opts.get("timeout_ms", 10000), logic=opts.get("logic"),
